@@ -14,7 +14,7 @@ func init() {
 		Title: "Every request gets exactly one outcome; 404/405/415/406 are exact",
 		Decided: "C02.a every path through the dispatching function produces exactly one outcome (error chain, install-failure 500, route chain or direct route function); C02.b in the stage function the emptiness tests follow the order conditions, method, Content-Type, Accept and the error built under each carries 404 / 405 / 415 / {415,406}; every error a module selector returns is a ServiceError with a constant code (404 where the selector itself refuses); " +
 			"C02.c no header of a writer is changed after a call that may commit the response on the same writer; C02.d panic/os.Exit reachable from request roots exist only where a precondition of the embedding program or a constant-argument standard-library constructor is concerned, and no request data reaches regexp.MustCompile; C02.e a slice of request-derived text whose bound is computed by subtraction is guarded by the comparison that makes it well-formed; " +
-			"C02.f the root-path scorer consults {v:regex}; C02.g header tokens are trimmed after the last cut (router side); C02.h the 405 Allow list (see C17.c); C02.i every other entry point hands the request on exactly once; C02.j a selector refuses exactly when the previous step found nothing; C02.k/C02.m every index expression on the request path is either proven in range by the Go compiler's prove pass or related to the length of the collection it indexes by a dominating test (or the sort.Interface contract), and bounds taken from a search of request text were compared with -1; C02.l template literals and the request path reach the compiled matchers through the same character-rewriting functions. C02.n = C01.f. C02.o = C11.l (the routers consult the current route table: derived copies follow every change).",
+			"C02.f the root-path scorer consults {v:regex}; C02.g header tokens are trimmed after the last cut (router side); C02.h the 405 Allow list (see C17.c); C02.i every other entry point hands the request on exactly once; C02.j a selector refuses exactly when the previous step found nothing; C02.k/C02.m every index expression on the request path is either proven in range by the Go compiler's prove pass or related to the length of the collection it indexes by a dominating test (or the sort.Interface contract), and bounds taken from a search of request text were compared with -1; C02.l template literals and the request path reach the compiled matchers through the same character-rewriting functions. C02.n = C01.f. C02.o = C11.l (the routers consult the current route table: derived copies follow every change). C02.p = C01.h; C02.q whatever may answer in place of the service error handler is chosen under a comparison of the ServiceError's Code with a constant.",
 		NotDecided: "panics other than index out of range (nil dereference, nil map write, type assertion) beyond C02.j; the arithmetic of slice expressions on template text (a malformed template, not a request, would be needed); nil results of custom routers; 'a matching route exists therefore no 4xx'; the best-root arithmetic.",
 		Rules: []Rule{
 			{ID: "C02.a", Template: "T-ONCE", Required: true, Run: ruleC02a,
